@@ -834,14 +834,70 @@ class FC:
     x = attr.ib(default=1)
 
 
-F_TYPES = [int, bool, str, type(None), P, Q, float]
-F_VALUES = [1, True, "s", None, P(), Q(), 1.5]
+import abc  # noqa: E402
+
+
+class Color(enum.Enum):          # metaclass EnumMeta
+    RED = 1
+    GREEN = 2
+
+
+class Shape(abc.ABC):            # metaclass ABCMeta
+    @abc.abstractmethod
+    def area(self):
+        ...
+
+
+class Square(Shape):
+    def area(self):
+        return 1
+
+
+class Meta(type):
+    pass
+
+
+class MetaK(metaclass=Meta):     # a custom metaclass
+    pass
+
+
+class FieldName(str):
+    """A str subclass instance used as a field name (what a typed key would be)."""
+
+
+class SE(enum.StrEnum):
+    z = "z"
+
+
+class SubAttr(attr.Attribute):
+    """An Attribute subclass: isinstance(x, Attribute) holds, == with a plain Attribute does not."""
+    __slots__ = ()
+
+
+def _sub_attr(a):
+    kw = {n: getattr(a, n) for n in attr.Attribute.__slots__ if n not in ("eq_key", "order_key")}
+    return SubAttr(cmp=None, **kw)
+
+
+# A listed item is a type / a name / an Attribute by isinstance (whatever its metaclass or
+# subclass); the number of a type is its index here, a value is represented by type(value).
+F_TYPES = [int, bool, str, type(None), P, Q, float, Color, Shape, Square, MetaK]
+assert all(isinstance(t, type) for t in F_TYPES)
+F_VALUES = [1, True, "s", None, P(), Q(), 1.5, Color.RED, Square(), MetaK()]
 F_ATTRS = [attr.fields(FA).x, attr.fields(FA).y, attr.fields(FB).x, attr.fields(FC).x, attr.fields(FC).z]
+F_ATTRS.append(_sub_attr(F_ATTRS[0]))
 assert F_ATTRS[0] == F_ATTRS[2] and F_ATTRS[0] is not F_ATTRS[2] and F_ATTRS[0] != F_ATTRS[3]
-F_JUNK = [42, None, 1.5, ("x",), b"x"]
-# the universe `what` is drawn from: (kind, payload)
+assert isinstance(F_ATTRS[5], attr.Attribute) and F_ATTRS[5] != F_ATTRS[0]
+F_SNAMES = [FieldName("y"), SE.z, FieldName("nope")]
+assert all(isinstance(n, str) and type(n) is not str for n in F_SNAMES)
+F_JUNK = [42, None, 1.5, ("x",), b"x", list[int], Color.RED]
+# the universe `what` is drawn from: (kind, payload).  Core (all subsets enumerated in the thorough tier)
 F_UNIVERSE = ([("type", i) for i in (0, 1, 2, 4, 5)] + [("name", s) for s in ("x", "y", "z", "nope")]
               + [("attr", i) for i in (0, 1, 2, 3)])
+# ... and the items that are a type / a name / an Attribute only by isinstance: classes with a
+# metaclass other than `type`, names that are str-subclass instances, an Attribute subclass instance
+F_EXTENDED = ([("type", i) for i in (7, 8, 9, 10)] + [("sname", i) for i in range(len(F_SNAMES))]
+              + [("attr", 5)])
 F_JUNK_ITEMS = [("junk", i) for i in range(len(F_JUNK))]
 
 
@@ -863,6 +919,8 @@ def what_obj(item):
         return F_TYPES[p]
     if kind == "name":
         return p
+    if kind == "sname":
+        return F_SNAMES[p]
     if kind == "attr":
         return F_ATTRS[p]
     return F_JUNK[p]
@@ -874,6 +932,8 @@ def enc_witem(item):
         return "(WType %d)" % p
     if kind == "name":
         return "(WName %s)" % q(p)
+    if kind == "sname":
+        return "(WName %s)" % q("".join(F_SNAMES[p]))       # the characters of the str-subclass instance
     if kind == "attr":
         return "(WAttr %s)" % enc_attr(F_ATTRS[p])
     return "WJunk"
@@ -895,24 +955,32 @@ def mk_filter_case(inp):
             seen.append("(%s, %s)" % (b(bool(ri)), b(bool(re_))))
             sj.append([bool(ri), bool(re_)])
     term = "(KFilter %s %s %s)" % (lst(enc_witem(i) for i in items), lst(probes), lst(seen))
-    return Case(term, inp, sj, sig={"part": "filters"}, nontrivial=bool(items), key=term)
+    ext = any(tuple(i) in F_EXTENDED for i in items)
+    return Case(term, inp, sj, sig={"part": "filters", "what_has_isinstance_only_item": ext},
+                nontrivial=bool(items), key=term)
 
 
 def gen_filters(tier, rng):
     cases = []
     U = F_UNIVERSE
+    UE = F_UNIVERSE + F_EXTENDED
+    # every what of size <= 2 over the whole universe, and every subset of the extended items
+    subsets = [c for k in (0, 1, 2) for c in itertools.combinations(UE, k)]
+    subsets += [c for k in range(3, len(F_EXTENDED) + 1) for c in itertools.combinations(F_EXTENDED, k)]
+    subsets.append(tuple(UE))
     if tier == "quick":
-        subsets = [c for k in (0, 1, 2) for c in itertools.combinations(U, k)]
         subsets.append(tuple(U))
         for _ in range(150):
-            subsets.append(tuple(u for u in U if rng.random() < rng.choice([0.2, 0.5, 0.8])))
+            subsets.append(tuple(u for u in UE if rng.random() < rng.choice([0.2, 0.5, 0.8])))
     else:
-        subsets = [c for k in range(len(U) + 1) for c in itertools.combinations(U, k)]
+        subsets += [c for k in range(3, len(U) + 1) for c in itertools.combinations(U, k)]
+        for _ in range(1500):
+            subsets.append(tuple(u for u in UE if rng.random() < rng.choice([0.2, 0.5, 0.8])))
     for s in subsets:
         cases.append(mk_filter_case({"part": "filter", "what": [list(i) for i in s]}))
     # spelling variations: junk mixed in, duplicates, shuffled order
     for _ in range(100 if tier == "quick" else 1000):
-        s = [u for u in U if rng.random() < 0.3]
+        s = [u for u in UE if rng.random() < 0.3]
         s += [rng.choice(F_JUNK_ITEMS) for _ in range(rng.randrange(3))]
         s += [rng.choice(s) for _ in range(rng.randrange(3))] if s else []
         rng.shuffle(s)
@@ -952,7 +1020,7 @@ C_PAIRS = [("i1", "i2", False), ("i2", "i1", False), ("i1", "i1", False), ("i1",
            # float vs a float subclass, str vs a str subclass
            ("f1", "F1", False), ("F1", "f1", False), ("f1", "F2", False), ("F2", "f1", False),
            ("sa", "Sa", False), ("Sa", "sa", False), ("F1", "F2", False), ("Sa", "Sa", False)]
-BEHS = ["H", "T", "F", "N", "flip", "neg"]
+BEHS = ["H", "T", "F", "N", "flip", "neg", "P", "P"]
 
 
 def _rank(x):
@@ -979,8 +1047,17 @@ def _honest(op, x, y):
     return {"eq": x == y, "lt": x < y, "le": x <= y, "gt": x > y, "ge": x >= y}[op]
 
 
+class PartialErr(TypeError):
+    """Raised by a supplied function that is only defined on two values of one class."""
+
+
+_CALLS = []        # call log of the supplied functions: (function name, x, y)
+
+
 def mk_cmp_func(op, beh):
+    """Instrumented supplied function: every call is logged before anything else happens."""
     def f(x, y):
+        _CALLS.append((op, x, y))
         if beh == "H":
             return _honest(op, _rank(x), _rank(y))
         if beh == "T":
@@ -991,13 +1068,27 @@ def mk_cmp_func(op, beh):
             return NotImplemented
         if beh == "flip":
             return _honest(op, _rank(y), _rank(x))
+        if beh == "P":                      # partial: written for one value type only
+            if type(x) is not type(y):
+                raise PartialErr("%s is only defined on two values of one class" % op)
+            return _honest(op, _rank(x), _rank(y))
         return not _honest(op, _rank(x), _rank(y))
     return f
 
 
 def enc_beh(bh):
     return {"H": "BHonest", "T": "(BConst TT)", "F": "(BConst FF)", "N": "(BConst NI)", "flip": "BFlip",
-            "neg": "BNeg"}[bh]
+            "neg": "BNeg", "P": "BPartial"}[bh]
+
+
+def _enc_cval_of(x):
+    for v, c, rk in C_VALUES.values():
+        if type(v) is type(x) and v == x:
+            return "C_ %d %s" % (c, vlib.z(rk))
+    return None
+
+
+_COP = {"eq": "OEq", "ne": "ONe", "lt": "OLt", "le": "OLe", "gt": "OGt", "ge": "OGe"}
 
 
 def mk_cmp_case(inp):
@@ -1025,28 +1116,43 @@ def mk_cmp_case(inp):
         seen_json = []
         ok = True
         for op in OPS:
+            del _CALLS[:]
             try:
-                x = getattr(a, "__%s__" % op)(bb)
+                x = getattr(a, "__%s__" % op)(bb)     # direct dunder call: NotImplemented is visible
+            except PartialErr:
+                t, shown = "EX", "raised PartialErr"
             except Exception as e:  # noqa: BLE001
                 ok = False
-                seen_json.append(type(e).__name__)
-                continue
-            if x is True:
-                res.append("TT")
-            elif x is False:
-                res.append("FF")
-            elif x is NotImplemented:
-                res.append("NI")
+                t, shown = None, "raised " + type(e).__name__
             else:
-                ok = False
-            seen_json.append(repr(x))
+                shown = repr(x)
+                if x is True:
+                    t = "TT"
+                elif x is False:
+                    t = "FF"
+                elif x is NotImplemented:
+                    t = "NI"
+                else:
+                    ok = False
+                    t = None
+            log = []
+            for fop, x1, y1 in _CALLS:
+                e1, e2 = _enc_cval_of(x1), _enc_cval_of(y1)
+                if e1 is None or e2 is None:
+                    ok = False
+                else:
+                    log.append("(%s, %s, %s)" % (_COP[fop], e1, e2))
+            seen_json.append([shown, [[fop, repr(x1), repr(y1)] for fop, x1, y1 in _CALLS]])
+            del _CALLS[:]
+            if t is not None:
+                res.append("(%s, %s)" % (t, lst(log)))
         seen = "(Some %s)" % lst(res) if ok else "(Some [])"
     cfg = "(Build_cfg %s %s %s %s %s %s)" % tuple([b(have[op]) for op in FUNCS] + [b(rst)])
     bs = "(Build_behs %s %s %s %s %s)" % tuple(enc_beh(behs[op]) for op in FUNCS)
 
     def wv(name, ident):
         _v, c, rk = C_VALUES[name]
-        return "(%d, Build_cval %d %s)" % (ident, c, vlib.z(rk))
+        return "(%d, C_ %d %s)" % (ident, c, vlib.z(rk))
     term = "(KCmp %s %s %s %s %s)" % (cfg, bs, wv(l, 0), wv(l if same else r, 0 if same else 1), seen)
     return Case(term, inp, seen_json, sig={"part": "cmp_using", "pair_kind": _pair_kind(l, r, same)},
                 nontrivial=any(have.values()), key=term)
@@ -1058,8 +1164,9 @@ def gen_cmp(tier, rng):
         have = dict(zip(FUNCS, bits))
         for rst in (True, False):
             for p in range(len(C_PAIRS)):
-                cases.append(mk_cmp_case({"part": "cmp", "have": have, "rst": rst, "pair": p,
-                                          "rst_default": p % 2 == 0, "behs": {op: "H" for op in FUNCS}}))
+                for bh in ("H", "P"):      # total honest functions / functions defined on one class only
+                    cases.append(mk_cmp_case({"part": "cmp", "have": have, "rst": rst, "pair": p,
+                                              "rst_default": p % 2 == 0, "behs": {op: bh for op in FUNCS}}))
     for _ in range(500 if tier == "quick" else 6000):
         have = {op: rng.random() < 0.55 for op in FUNCS}
         behs = {op: (rng.choice(BEHS) if have[op] else "H") for op in FUNCS}
@@ -1119,5 +1226,7 @@ def distribution(cases):
     depths = Counter(depth(c.inp.get("tree")) for c in cases if c.inp.get("part") == "conv")
     flav = Counter(c.inp.get("flavour") for c in cases if c.inp.get("part") == "conv" and c.inp.get("flavour"))
     pk = Counter(c.sig.get("pair_kind") for c in cases if c.sig.get("part") == "cmp_using")
-    return {"parts": dict(parts), "cmp_using_pair_kinds": dict(pk), "converter_contexts": dict(ctxs),
+    fx = sum(1 for c in cases if c.sig.get("what_has_isinstance_only_item"))
+    return {"parts": dict(parts), "cmp_using_pair_kinds": dict(pk),
+            "filters_what_with_metaclass_type_or_str_subclass_name_or_attribute_subclass": fx, "converter_contexts": dict(ctxs),
             "converter_tree_depths": dict(sorted(depths.items())), "class_flavours": dict(flav)}
